@@ -67,6 +67,11 @@ CLAIMED["C18"] = (
     COMMON_TRUST + " time.Time is modelled as an instant (monotonic reading and Location ignored); timestamppb.AsTime/CheckValid are assumed. Not proved in this revision: the exactly-one-shard lemma by induction over the shard list (the router returns the first containing shard).",
 )
 
+CLAIMED["C12"] = (
+    "Deductive proof per client method that nothing is returned without the verification the property names: GetSTH returns only an STH that ToSignedTreeHead decoded completely (32-byte root hash, no trailing signature bytes) and that VerifySTHSignature accepted; addChainWithRetry returns only an SCT whose DigitallySigned decoded completely, whose extensions decoded, and that VerifySCTSignature accepted for the leaf rebuilt from the submitted chain, entry type and the SCT's timestamp and extensions; GetAndParse/PostAndParse succeed only on 200 with a decoded body and wrap later failures in RspError with status and body; every other method passes the transport error on with a nil result; RawLogEntryFromLeaf/ToLogEntry/LogEntryFromLeaf are total (no panic) on arbitrary leaf_input/extra_data, reject trailing bytes and unknown entry types, and return entries whose certificate and chain are exactly the decoded fields; a client is given a verifier exactly when a key is configured, and only for compliant keys. One open finding (F9, KNOWN_FINDINGS.txt): the SCT log ID is never compared with the hash of the configured key.",
+    COMMON_TRUST + " The reflective TLS decoder is represented by assumed postconditions (decoded MerkleTreeLeaf: selected variant pointers set); encoding/json, base64, net/http and ctxhttp.Do are assumed to write only through the destination they are given; x509.ParsePKIXPublicKey is assumed to return a well-formed key. TemporalLogClient.GetAcceptedRoots (goroutines, channel) is outside the generator's subset and not covered. Cryptographic validity of an accepted signature is C05's subject.",
+)
+
 NOT_YET = "contracts for this property are not yet discharged by the generator in this revision; no other technique is substituted"
 NOT_APPLICABLE = {}
 
